@@ -598,7 +598,7 @@ func (p *c20) Run(c *verifsim.Chooser, st *Stats, render bool) *Outcome {
 
 func (p *c20) runAPI(c *verifsim.Chooser, st *Stats, render bool) *Outcome {
 	o := &Outcome{}
-	currentDesc.Store("API history")
+	setDesc("API history")
 	g := &c20Gen{c: c, fnKind: map[string]string{}}
 	// functions registered before Prepare
 	nf := 1 + c.Intn(4)
